@@ -2,11 +2,15 @@
 `ast` on every run and builds the function table.  Nothing is copied by hand:
 the verified text is the file content at the moment of the check.
 
-What the extraction drops: comments and docstrings (not in the AST).  The
+What the extraction drops: comments and docstrings (not in the AST).
+Local names: a function that differs from the tree the contracts were written
+against only by a consistent renaming of parameters / local variables is
+alpha-converted back to those names (pyvc/alpha.py; bijection checked).  The
 text written by sys.stderr.write is not modelled (the executor keeps the
 *event* as ghost counter `$diag`)."""
 import ast
 import os
+from . import alpha
 
 REPO = os.environ.get('YALAFI_REPO', '/repo')
 PKG = 'yalafi'
@@ -63,6 +67,7 @@ class Repo:
         self.modules = {}
         self.funcs = {}       # qualname -> FuncInfo
         self.classes = {}     # qualname -> (ModuleInfo, ast.ClassDef)
+        self.renamed = []     # (qualname, {current local name: reference})
         self._load()
 
     def _load(self):
@@ -80,6 +85,8 @@ class Repo:
                 with open(path, encoding='utf-8') as fh:
                     src = fh.read()
                 tree = ast.parse(src, filename=path)
+                if not os.environ.get('PYVC_NO_ALPHA'):
+                    alpha.normalise(tree, name, self.renamed)
                 mi = ModuleInfo(name, path, tree, src)
                 self.modules[name] = mi
                 self._index(mi)
@@ -131,6 +138,11 @@ class Repo:
                     q = prefix + '.<locals>.' + c.name
                     fi = FuncInfo(q, c, mi, cls, parent, mi.path)
                     self.funcs[q] = fi
+                    rn = getattr(c, '_ref_name', None)
+                    if rn and rn != c.name:
+                        # same nested function as `rn` of the tree the
+                        # contracts were written against (pyvc/alpha.py)
+                        self.funcs[prefix + '.<locals>.' + rn] = fi
                     self._index_nested(mi, c, q, cls, fi)
                 elif isinstance(c, ast.ClassDef):
                     continue
